@@ -213,6 +213,42 @@ def cli_work(shard, nshards, payload):
                 if mode == "G" and (not os.path.exists(h_path) or open(h_path).read() != ref["generate"]["header"]):
                     t.violation("cli:generate-mode-run-left-no-current-header", dict(case, step=step, exists=os.path.exists(h_path)))
             t.distinct.add((name, hist))
+        # several sources in one invocation, every ordered selection of 2 and 3 documents: each source's outputs
+        # are those of its own translation, whatever was translated before it in the same run
+        multi = [sel for n in (2, 3) for sel in itertools.permutations(range(len(CLI_DOCS)), n)]
+        for k, sel in enumerate(multi):
+            if k % nshards != shard:
+                continue
+            for mode in "GR":
+                d = os.path.join(scratch, f"m{k}{mode}")
+                os.makedirs(d)
+                refs = []
+                for j, di in enumerate(sel):
+                    tn = f"Doc{'ABC'[j]}"
+                    with open(os.path.join(d, tn + ".qml"), "w") as f:
+                        f.write(CLI_DOCS[di][1])
+                    refs.append((tn, vd.job({"id": k, "source": CLI_DOCS[di][1], "modes": list(vc.MODES), "type_name": tn})["modes"]))
+                args = [vc.QMLUIC_BIN, "generate-ui", "--foreign-types", vc.METATYPES] + (["--no-dynamic-binding"] if mode == "R" else []) + \
+                    [tn + ".qml" for tn, _r in refs]
+                p_ = subprocess.run(args, cwd=d, stdout=subprocess.PIPE, stderr=subprocess.PIPE, timeout=60)
+                t.inc("cli_runs")
+                t.inc("cli_multi_source_runs")
+                case = {"id": f"cli-multi/{'+'.join(CLI_DOCS[i][0] for i in sel)}/{mode}", "sources": [CLI_DOCS[i][1] for i in sel], "mode": mode,
+                        "source": CLI_DOCS[sel[0]][1]}
+                mname = "generate" if mode == "G" else "reject"
+                want_ok = all(vc.accepted(r[mname]) for _tn, r in refs)
+                if (p_.returncode == 0) != want_ok:
+                    t.violation("cli:exit-status-differs-from-the-mode's-verdict", dict(case, exit=p_.returncode))
+                    continue
+                for tn, r in refs:
+                    if not vc.accepted(r[mname]):
+                        break               # the run stops at the first rejected source
+                    ui_path, h_path = os.path.join(d, tn.lower() + ".ui"), os.path.join(d, f"uisupport_{tn.lower()}.h")
+                    if not os.path.exists(ui_path) or open(ui_path).read() != r[mname]["ui"]:
+                        t.violation("cli:multi-source:ui-differs-from-the-source's-own-translation", dict(case, file=tn))
+                    if mode == "G" and (not os.path.exists(h_path) or open(h_path).read() != r["generate"]["header"]):
+                        t.violation("cli:multi-source:header-differs-from-the-source's-own-translation", dict(case, file=tn))
+                t.distinct.add(("multi", sel, mode))
     return t
 
 
